@@ -87,7 +87,7 @@ def walk(o: Any) -> list[Any]:
 
 def snap(o: Any) -> tuple[Any, ...]:
     """Value + identity snapshot of every field of a node (C10 frame condition)."""
-    out: list[Any] = [("id", o.id), ("content_id", o.content_id), ("hash", hash(o)), ("origin", id(o.origin), origin_key(o.origin))]
+    out: list[Any] = [("id", o.id), ("content_id", o.content_id), ("hash", hash(o)), ("origin", id(o.origin), repr(o.origin))]
     for f in U.FIELDS.get(cname(o), ()):
         v = getattr(o, f.name)
         if f.kind == "prop":
@@ -527,7 +527,7 @@ class World:
                     a=spec_of(a),
                     b=spec_of(o),
                 )
-            if c in by_cid and by_cid[c] != k:
+            if c in by_cid and by_cid[c] != k and self.cfg["digest"] >= 8:
                 a = by_key_obj[by_cid[c]]
                 raise self.viol(
                     "C01.2 different-content-same-content_id",
@@ -544,6 +544,8 @@ class World:
         for a in rs:
             for b in rs:
                 want = type(a) is type(b) and self.key(a) == self.key(b)
+                if self.cfg["digest"] < 8 and not want:
+                    continue
                 if a.is_equal(b) != want:
                     raise self.viol(
                         "C01.4 is_equal-disagrees-with-structure",
@@ -1365,15 +1367,19 @@ class Gen:
         ref = self.pick_ref(actor, root_bias=0.7)
         if ref is None:
             return None
-        what = r.choice(["eq", "rich", "walk", "tree", "xpath", "match", "accessors", "ser", "visit", "ser_opts"])
+        what = r.choice(["eq", "rich", "walk", "tree", "xpath", "match", "accessors", "ser", "visit", "ser_opts", "origins", "churn"])
         if self.cfg["prop"] == "C04":
             what = "ser_opts"
+        if self.cfg["prop"] in ("C14", "C01"):
+            what = r.choice(["churn", "churn", "eq", "accessors"])
         op: dict[str, Any] = {"op": "obs", "n": ref, "what": what}
         if what == "ser_opts":
             op["optset"] = [k for k in ("skip", "sort", "test", "explorer", "idx") if r.random() < 0.4]
             op["fmt"] = r.choice(list(FORMATS))
-        if what == "eq":
+        if what in ("eq", "origins"):
             op["m"] = self.pick_ref(actor) or ref
+        if what == "churn":
+            op["count"] = r.choice([280, 300, 600])
         if what == "xpath":
             op["xpath"] = r.choice(["//LeafA", "/Pair/@left Expr", "//@items[0]Expr", "//Seq//LeafB"])
         if what == "match":
@@ -1401,17 +1407,20 @@ class Gen:
         n = r.choice([1, 1, 2, 3])
         rules: dict[str, Any] = {}
         for c in r.sample(cands, min(n, len(cands))):
-            kinds = ["keep", "rewrite", "rewrite", "fresh", "existing", "remove", "remove"]
+            kinds = ["keep", "rewrite", "rewrite", "rewrite_tc", "fresh", "existing", "remove", "remove"]
             if self.cfg["faults"]:
                 kinds.append("raise")
             k = r.choice(kinds)
-            if k == "rewrite":
+            if k == "raise" and r.random() < 0.6:
+                rules[c] = ["raise", r.choice(sorted(_EXC))]
+                continue
+            if k in ("rewrite", "rewrite_tc"):
                 fs = [f for f in U.PROP_FIELDS[c] if f.init and f.vt in ("str", "int")]
                 if not fs:
                     k = "keep"
                 else:
                     f = r.choice(fs)
-                    rules[c] = ["rewrite", f.name, self.value(f.vt)]
+                    rules[c] = [k, f.name, self.value(f.vt)]
                     continue
             if k == "fresh":
                 save = self.cfg["p_ref"]
@@ -1465,11 +1474,12 @@ _OBS = {"findall": 1.0, "walkgen": 0.7, "gen_next": 0.7, "tree": 0.5, "obs": 2.0
 BASE_WEIGHTS = {
     "C03": {"construct": 5, "twin": 4, "drop": 3, "gc": 0.5, "detach_self": 4, "detach": 2.5, "duplicate": 2, "dc_replace": 2, "replace": 4,
             "ser": 1.5, "deser": 2, "crash": 1, "transform": 1, **_OBS},
-    "C14": {"construct": 5, "twin": 3, "twinpair": 1.5, "drop": 2, "detach_self": 2.5, "detach": 1, "duplicate": 5, "dc_replace": 4, "replace": 5, "ser": 0.5, "deser": 0.5},
+    "C14": {"construct": 5, "twin": 3, "twinpair": 1.5, "drop": 2, "detach_self": 2.5, "detach": 1, "duplicate": 5, "dc_replace": 4, "replace": 5, "ser": 1.5, "deser": 1.5,
+            "crash": 1.0, "obs": 0.6},
     "C10": {"construct": 5, "twin": 2, "drop": 2, "detach_self": 2, "detach": 1.5, "duplicate": 3, "dc_replace": 3, "replace": 3,
             "ser": 2, "deser": 2.5, "crash": 0.5, "transform": 3, "poke": 2, "findall": 1.5, "walkgen": 1, "gen_next": 1, "tree": 1, "obs": 5},
     "C01": {"construct": 6, "twin": 6, "drop": 2, "detach_self": 1.5, "detach": 1, "duplicate": 2, "dc_replace": 3, "replace": 2,
-            "ser": 1, "deser": 1, "peer_cid": 1.5, "transform": 0.5},
+            "ser": 1, "deser": 1, "peer_cid": 1.5, "transform": 0.5, "obs": 0.5},
     "C04": {"construct": 5, "twin": 3, "drop": 2, "crash": 3, "detach_self": 1.5, "detach": 1, "duplicate": 1, "dc_replace": 1, "replace": 1.5,
             "ser": 6, "deser": 7, "peer_roundtrip": 1.0, "obs": 1.0},
     "C09": {"construct": 5, "twin": 2, "drop": 2, "detach_self": 1.5, "detach": 1, "duplicate": 1, "replace": 1, "transform": 8, "obs": 0.5},
@@ -1480,6 +1490,8 @@ def make_config(rseed: int, prop: str, tier: str, faults: bool) -> dict[str, Any
     rng = Rng(rseed)
     r = rng.s("config")
     digest = r.choice([1, 2, 8, 8, 16]) if prop in ("C03", "C14", "C10", "C04", "C09") else r.choice([8, 8, 16, 32])
+    if prop == "C01" and r.random() < 0.15:
+        digest = r.choice([1, 2])  # distinct contents collide by design: only "equal content => equal content_id" is judged
     rtc = r.random() < 0.3 and prop not in ("C09",)
     nstr = r.choice([2, 3, 4, 6])
     strpool = r.sample(U.STR_POOL, nstr)
@@ -1701,10 +1713,19 @@ class _UserError(Exception):
     """Raised by a universe visitor whose rule is 'raise'."""
 
 
+_EXC = {"AttributeError": AttributeError, "KeyError": KeyError, "TypeError": TypeError, "ValueError": ValueError, "LookupError": LookupError}
+
+
 def _mk_visit(cls_name: str, rule: Any, world: "World"):
     def visit(self, node):  # noqa: ANN001
         FAULTS.hit("visit")
         self.log.append((cls_name, cname(node)))
+        if isinstance(rule, list) and rule[0] == "rewrite_tc":
+            # the documented helper style: transform the children, add own changes to the returned mapping
+            f = next(x for x in U.PROP_FIELDS[cls_name] if x.name == rule[1])
+            changes = self._transform_children(node)
+            changes[rule[1]] = U.decode(f.vt, rule[2])  # type: ignore[index]
+            return dataclasses.replace(node, **changes)
         base = self.generic_visit(node)
         kind = rule if isinstance(rule, str) else rule[0]
         if kind == "keep":
@@ -1712,7 +1733,7 @@ def _mk_visit(cls_name: str, rule: Any, world: "World"):
         if kind == "remove":
             return None
         if kind == "raise":
-            raise _UserError(cls_name)
+            raise _EXC.get(rule[1] if isinstance(rule, list) else "", _UserError)(cls_name)
         if kind == "rewrite":
             f = next(x for x in U.PROP_FIELDS[cls_name] if x.name == rule[1])
             return dataclasses.replace(base, **{rule[1]: U.decode(f.vt, rule[2])})
@@ -2148,6 +2169,23 @@ def op_obs(self: World, op: dict[str, Any]) -> str:
         elif what == "ser":
             for fmt in FORMATS:
                 serialize(a, fmt, ser_opts(op.get("opts")))
+        elif what == "origins":
+            from pyoak.origin import concat_origins, merge_origins
+
+            b = self.node_at(op["m"])
+            _ = a.origin + b.origin
+            _ = merge_origins(a.origin, b.origin, a.origin)
+            _ = concat_origins(a.origin, b.origin)
+            _ = b.origin + a.origin
+            for x in walk(a)[:5]:
+                _ = x.origin + a.origin
+                _ = str(x.origin), x.origin.fqn, x.origin.get_raw()
+        elif what == "churn":
+            # allocator / cache pressure: a few hundred short-lived nodes with distinct property values
+            tmp = [U.CLS["LeafA"](a=f"churn-{self.step_no}-{i}", b=str(i)) for i in range(op.get("count", 300))]
+            for t in tmp:
+                t.detach_self()
+            del tmp
         elif what == "ser_opts":
             from pyoak.node import AST_SERIALIZE_DIALECT_KEY, ASTSerializationDialects
             from pyoak.serialize import SerializationOption
@@ -2229,8 +2267,8 @@ def expect_transform(o: Any, rules: dict[str, Any], strict: bool, world: World, 
     if kind == "remove":
         return "removed"
     if kind == "raise":
-        raise _UserError(meth)
-    if kind == "rewrite":
+        raise _UserError(meth)  # (whatever the class: the reference only says "this transform raises")
+    if kind in ("rewrite", "rewrite_tc"):
         if "same" in base:
             src = base["same"]
             b = {"new": {"cls": cls, "from": src, "props": {}, "children": None}}
@@ -2357,9 +2395,12 @@ def op_transform(self: World, op: dict[str, Any]) -> str:
     FAULTS.reset_hits()
     outcome = "ok"
     res = None
+    raise_types = tuple({_EXC.get(r[1], _UserError) for r in rules.values() if isinstance(r, list) and r[0] == "raise"} | {_UserError})
     try:
         res = v.transform(o)
-    except _UserError:
+    except raise_types as e:
+        if type(e).__name__ == "InvalidTypes":
+            raise
         outcome = "raised:UserError"
     except InjectedFault as e:
         self.stats.probes["fault_fired:" + e.site] += 1
@@ -2416,7 +2457,7 @@ def op_transform(self: World, op: dict[str, Any]) -> str:
                 raised = False
             except InjectedFault:
                 raised = True
-            except _UserError:
+            except raise_types:
                 raised = True
             except Exception as e:  # noqa: BLE001
                 if self.cfg["rtc"] and type(e).__name__ == "InvalidTypes":
